@@ -381,6 +381,7 @@ impl BytecodeBuilder {
                 | Op::Yield { .. }
                 | Op::YieldStar { .. }
                 | Op::PushScope
+                | Op::PushNamespaceScope { .. }
                 | Op::PopScope
                 | Op::GetIterator { .. }
                 | Op::GetKeysIterator { .. }
